@@ -707,6 +707,114 @@ func TestVerifC09SeedWhileWriting(t *testing.T) {
 	})
 }
 
+// ---- (b3) one client factory, several bridges ------------------------------------------
+
+// TestVerifC09TwoBridges: obfs4proxy uses ONE client factory for all bridges.
+// Each connection's shaping follows the seed of the bridge it talks to, also
+// after connections to other bridges have been made through the same factory.
+func TestVerifC09TwoBridges(t *testing.T) {
+	vfSetup(t)
+	c := ev.For("C09")
+	c.Rule("two-bridges: one client factory; connections to 2-3 bridges with different seeds (reference servers) are opened in a generated order, each processes its bridge's seed frame; then 2-6 Writes are made on the connections in a generated order; oracle: every burst of a connection is explained by the table its OWN bridge's seed denotes (refdist), its live table equals that table, payload intact; non-trivial = a Write on a connection after a LATER connection processed a different seed; fingerprint = seeds, order, sizes")
+	rapid.Check(t, func(rt *rapid.T) {
+		rk := rapid.Uint64().Draw(rt, "randKey")
+		defer vfRandSeedKey(rk)()
+		cf, err := (&Transport{}).ClientFactory("")
+		if err != nil {
+			rt.Fatalf("VIOL[c09-session]: %v", err)
+		}
+		vfSharedClientFactory = cf
+		defer func() { vfSharedClientFactory = nil }()
+		biased := rapid.Bool().Draw(rt, "biased")
+		nb := rapid.IntRange(2, 3).Draw(rt, "bridges")
+		type conn struct {
+			s     *vfRefSess
+			table []int
+			off   int
+		}
+		var conns []*conn
+		for i := 0; i < nb; i++ {
+			var br vfBridge
+			br.ID = refobfs4.NewIdentity(detrand.Bytes(rapid.Uint64().Draw(rt, "identity"), 52))
+			br.Biased = biased
+			br.IAT = 0
+			br.Seed = detrand.Bytes(rapid.Uint64().Draw(rt, "seed"), 24)
+			s, err := vfRefSessionOpt(br, vfEnt(rapid.Uint64().Draw(rt, "refEntropy")), true, rapid.Bool().Draw(rt, "legacy"), false)
+			if s != nil && s.N != nil {
+				defer s.N.Shutdown()
+			}
+			if err != nil {
+				rt.Fatalf("VIOL[c09-session]: connection %d through the shared factory: %v", i, err)
+			}
+			conns = append(conns, &conn{s: s, table: refdist.New(br.Seed, 0, vfSeg, biased).Values})
+		}
+		nw := rapid.IntRange(2, 6).Draw(rt, "writes")
+		nt := false
+		var hist []string
+		for w := 0; w < nw; w++ {
+			k := rapid.IntRange(0, nb-1).Draw(rt, "conn")
+			cn := conns[k]
+			if k < nb-1 {
+				nt = true
+			}
+			oc, ok := cn.s.Ep.Conn().(*obfs4Conn)
+			if !ok {
+				rt.Fatalf("INFRA: connection is %T", cn.s.Ep.Conn())
+			}
+			if live := vfDistValues(oc.lenDist); fmt.Sprint(live) != fmt.Sprint(cn.table) {
+				rt.Fatalf("VIOL[c09-client-ignores-seed]: connection %d (of %d made through one client factory) uses the length table %v, its bridge's seed denotes %v (history %v)", k, nb, live, cn.table, hist)
+			}
+			n := rapid.SampledFrom([]int{0, 1, 700, 1406, 1427, 1428, 3000}).Draw(rt, "size")
+			data := vfCounterStream(0, cn.off, n)
+			res, wn, id := cn.s.Ep.Write(data)
+			hist = append(hist, fmt.Sprintf("write(conn%d,%d)", k, n))
+			if res.Failed() {
+				rt.Fatalf("VIOL[c09-write-panic]: Write(%d) on connection %d: %s", n, k, res)
+			}
+			if res.Err != nil || wn != n {
+				rt.Fatalf("VIOL[c09-write-error]: Write(%d) = %d, %v", n, wn, res.Err)
+			}
+			total := 0
+			wr, _, _ := cn.s.N.Snapshot()
+			for _, r := range wr {
+				if r.Side == cn.s.RealSide && r.Bracket == id {
+					total += r.N
+				}
+			}
+			p := 0
+			for rem := n; rem > 0; rem -= maxPacketPayloadLength {
+				kk := rem
+				if kk > maxPacketPayloadLength {
+					kk = maxPacketPayloadLength
+				}
+				p += headerLength + kk
+			}
+			okb := n == 0 && total == 0
+			for _, v := range cn.table {
+				for _, a := range vfAllowedPad(p, v) {
+					if p+a == total {
+						okb = true
+					}
+				}
+			}
+			if !okb {
+				rt.Fatalf("VIOL[c09-burst-length]: connection %d of %d made through one client factory: Write(%d) put %d bytes on the wire (%d of frames carrying data); no value of ITS bridge's table %v explains the padding (history %v)", k, nb, n, total, p, cn.table, hist)
+			}
+			cn.s.Dec.Feed(cn.s.N.Take(cn.s.RealSide))
+			frames, err := cn.s.Dec.All()
+			var got []byte
+			for _, f := range frames {
+				got = append(got, f.Payload...)
+			}
+			if err != nil || !bytes.Equal(got, data) {
+				rt.Fatalf("VIOL[c09-frames]: burst of Write(%d) on connection %d does not decode to the data written: %v", n, k, err)
+			}
+			cn.off += n
+		}
+		c.Case(ev.Hash("two-bridges", rk, fmt.Sprint(hist)), nt, []string{"two-bridges"}, func() any { return map[string]any{"unit": "two-bridges", "bridges": nb, "history": hist} })
+	})
+}
+
 // ---- (c) paranoid mode terminates for every single-value table ---------------------------------
 
 // vfSingleSeeds maps each value v of a one-entry length table to a seed that
